@@ -76,7 +76,7 @@ def controlled_run(offsets, fails, threads, choose, max_steps=2000, strategy="qu
             return make
         lc.Queue = mkq(SC.SQueue)
         lc.SimpleQueue = mkq(SC.SSimpleQueue)
-        lc.requests_retry_session = lambda *a, **k: Sess(bytes(data), fails, S, fail_kind=lambda off: "protocol" if (off // 50) % 2 else "http")
+        lc.requests_retry_session = lambda *a, **k: Sess(bytes(data), fails, S, fail_kind=lambda off: ["http", "protocol", "http416", "http404", "http", "http503"][(off // 50) % 6])
         lc.HttpFetcherThread.start, lc.HttpFetcherThread.run, lc.HttpFetcherThread.join = start, run, join
         lc.ThreadPoolExecutor = lambda max_workers=None, **k: SC.XPool(S, max_workers)
         source = lc.HttpRangeStream("http://verif.invalid/file.copc.laz")
@@ -324,7 +324,7 @@ def run(ck):
             hi = max([c[0] for c in captured] + [1])
             lc.requests_retry_session = lambda *a, _d=data, _f=fails, _hi=hi, **k: SC.FakeSession(
                 _d, _f, delay=lambda off, _hi=_hi: time.sleep(max(0.0, 0.002 * (1.0 - off / (_hi + 1.0)))),
-                fail_kind=lambda off: "protocol" if off % 2 else "http")
+                fail_kind=lambda off: ["http", "protocol", "http416", "http403", "http416", "http429"][off % 6])
             before = {th.ident for th in threading.enumerate()}
             rd = CopcReader(lc.HttpRangeStream("http://verif.invalid/f.copc.laz"), http_num_threads=workers, _http_strategy=strategy)
             lc.HttpRangeStream._verif_jitter = 0.0008 if qi % 2 else 0.0
